@@ -319,12 +319,17 @@ def run(ctx: Ctx):
         ctx.violation("trace:" + clause, "history %d rejected by Trace_Clear: %s" % (tid, clause), meta.get(tid))
     k = sorted(meta)[len(meta) // 2]
     ctx.sample({"trace": k, **meta[k]})
+    # the same specification validates the manager in tracking mode: per-frame CLEAR([previous frame, current frame]) and the scene CLEAR
+    from . import tracking_manager
+
+    ctx.extra["manager_tracking_traces"] = tracking_manager.run(ctx, renderings=("base_link",), n=20 if ctx.quick else 200)
     ctx.rule = (
         "TLC enumerates every history of frames (sets of results over estimate ids {1,2}, ground-truth ids {1,2}, labels, score levels) up to "
         "MaxFrames and checks accounting, switch definition, renaming invariance under all id permutations, MOTA range and the named scenarios; "
         "every scored history is replayed through the real CLEAR class (results shuffled inside frames; distance and IoU modes) and all of "
         "tp/fp/id_switch/predict_num/tp_matching_score/MOTA/MOTP compared; deeper histories by TLC simulation; random histories (<= 60 frames x "
-        "<= 14 results, switches, fragmentations, swaps, two label buckets, TrackingMetricsScore totals) validated as traces. Non-trivial = history "
+        "<= 14 results, switches, fragmentations, swaps, two label buckets, TrackingMetricsScore totals) validated as traces; random moving "
+        "scenes through PerceptionEvaluationManager in tracking mode (MetricsScore.tracking_scores per frame and for the scene). Non-trivial = history "
         "with an ID switch or with both TPs and FPs; trace with >= 2 frames; distinct by history."
     )
     ctx.exhaustive = False
